@@ -299,10 +299,15 @@ class Impl:
         for k, v in self.sm.port_protocol_mapping.items():
             if sw.get(v.name) is not v:
                 bad.append(("reg:port-table-owner-not-installed", f"{k} -> {v.name} not the installed instance"))
-        ds = self.node.describe_state()
-        listed = sorted(list(ds["services"]) + list(ds["applications"]))
-        if listed != sorted(sw):
-            bad.append(("reg:describe_state-vs-software", f"describe_state={listed} software={sorted(sw)}"))
+        try:
+            ds = self.node.describe_state()
+        except Exception as e:  # noqa  -- describe_state is read on every environment step: it must not raise
+            bad.append(("describe_state-raises", f"{type(e).__name__}: {e}"))
+            ds = None
+        if ds is not None:
+            listed = sorted(list(ds["services"]) + list(ds["applications"]))
+            if listed != sorted(sw):
+                bad.append(("reg:describe_state-vs-software", f"describe_state={listed} software={sorted(sw)}"))
         if sorted(self.sm._software_class_to_name_map.items(), key=lambda kv: kv[1]) != \
                 sorted(((type(o), o.name) for o in sw.values()), key=lambda kv: kv[1]):
             bad.append(("reg:class-map-vs-software", f"class map={sorted(v for v in self.sm._software_class_to_name_map.values())} "
